@@ -147,7 +147,7 @@ func avoidSet() map[string]bool {
 
 func drawCase(pool string, i int, seed int) Case {
 	g := rapid.Custom(func(t *rapid.T) Case {
-		o := &im.GenOpts{Services: true, Defaults: true, Consts: true, Annotations: true, Recursive: true, MaxFiles: 3, Small: i%2 == 0, Avoid: avoidSet(), Hostile: pool == "hostile", BackEdges: pool == "hostile" && i%3 == 0}
+		o := &im.GenOpts{Services: true, Defaults: true, Consts: true, Annotations: true, Recursive: true, MaxFiles: 4, Small: i%2 == 0, Avoid: avoidSet(), Hostile: pool == "hostile", BackEdges: pool == "hostile" && i%3 == 0}
 		p := im.GenProgram(t, o)
 		return Case{ProgID: fmt.Sprintf("p%d", i), Program: p, Opts: drawOpts(t), Pool: pool}
 	})
